@@ -15,7 +15,10 @@ import (
 	"strings"
 	"time"
 
+	"golang.org/x/tools/go/ssa"
+
 	"verif/checker/internal/controls"
+	"verif/checker/internal/ir"
 	"verif/checker/internal/load"
 	"verif/checker/internal/report"
 	"verif/checker/internal/rules"
@@ -35,6 +38,7 @@ func main() {
 		verbose   = flag.Bool("v", false, "print every obligation")
 		verifDir  = flag.String("verif", "/verif", "verif directory (for replay files, seeded patches)")
 		goarch    = flag.String("goarch", "", "GOARCH for loading")
+		dump      = flag.String("dump", "", "debug: print the SSA of functions whose qualified name contains this string")
 	)
 	flag.Parse()
 	start := time.Now()
@@ -69,6 +73,22 @@ func main() {
 			os.Exit(3)
 		}
 		fatal("CHECK-ERROR cannot load %s: %v", *repo, err)
+	}
+
+	if *dump != "" {
+		for _, fn := range prog.ClosureFuncs() {
+			var walk func(f *ssa.Function)
+			walk = func(f *ssa.Function) {
+				if strings.Contains(ir.QualifiedName(f), *dump) {
+					f.WriteTo(os.Stdout)
+				}
+				for _, an := range f.AnonFuncs {
+					walk(an)
+				}
+			}
+			walk(fn)
+		}
+		return
 	}
 
 	if *ruleList != "" {
